@@ -37,7 +37,8 @@ LEVEL_TEXT = ("Bounded-exhaustive: the complete cross product of an enumerated s
 LEVEL_NOTE = ("Trusted: the spec-level substitution/sort in this file. Not covered: depth > 2, ExprLoc/ExprAssign nodes, completeness of the "
               "matcher (a missed match is not a violation of this property).")
 TECHNIQUE = "complete cross product of subject and pattern tree lattices against an independent substitute-and-compare oracle"
-ASSUMPTIONS = ["commutative operators are + * ^ & | (ExprOp.is_commutative)",
+ASSUMPTIONS = ["commutative operators are + * ^ & | only (fixed in the oracle, not asked from ExprOp.is_commutative); for every other "
+               "operator, FLAG_* / CC_* included, the substituted pattern must be identical to the subject",
                "a failed match must leave a caller-provided result dictionary unchanged (output context of a match that did not happen)"]
 
 COMM = {"+", "*", "^", "&", "|"}
@@ -99,13 +100,25 @@ KINDS = [
     ("slice4hi", 4, (8,), lambda c: ("slice", c[0], 4, 8)),
     ("&4", 4, (4, 4), lambda c: ("op", "&") + c),
 ]
+# operators the matcher must NOT treat as commutative, whatever their names suggest: 2- and 3-operand flag / condition
+# operators and a custom operator.  Depth 1 over the full leaves in both tiers; also roots of depth 2 (one depth-1 child) in thorough.
+KINDS_NC = [
+    ("FLAG_EQ_CMP", 1, (8, 8), lambda c: ("op", "FLAG_EQ_CMP") + c),
+    ("FLAG_EQ_AND", 1, (8, 8), lambda c: ("op", "FLAG_EQ_AND") + c),
+    ("FLAG_SUB_CF", 1, (8, 8), lambda c: ("op", "FLAG_SUB_CF") + c),
+    ("FLAG_EQ_SUBWC", 1, (8, 8, 1), lambda c: ("op", "FLAG_EQ_SUBWC") + c),
+    ("FLAG_EQ_ADDWC", 1, (8, 8, 1), lambda c: ("op", "FLAG_EQ_ADDWC") + c),
+    ("FLAG_SUBWC_CF", 1, (8, 8, 1), lambda c: ("op", "FLAG_SUBWC_CF") + c),
+    ("CC_U<=", 1, (1, 1), lambda c: ("op", "CC_U<=") + c),
+    ("myop", 8, (8, 8), lambda c: ("op", "myop") + c),
+]
 WIDTHS = (8, 1, 16, 4)
 
 
-def depth1(leaves):
+def depth1(leaves, kinds=None):
     """width -> every node kind over leaves."""
     out = {w: [] for w in WIDTHS}
-    for tag, w, cws, mk in KINDS:
+    for tag, w, cws, mk in (kinds or KINDS):
         for ch in itertools.product(*[leaves[cw] for cw in cws]):
             out[w].append(mk(tuple(ch)))
     return out
@@ -129,8 +142,9 @@ def lattice(pattern, thorough):
     full = leafsets(pattern, "full")
     red = leafsets(pattern, "red")
     mini = leafsets(pattern, "mini")
-    d1_full = depth1(full)
+    d1_full = depth1(full, KINDS + KINDS_NC)
     d1_deep = depth1(red if thorough else mini)
+    d1_mini = depth1(mini)
     sib_core = core1(red)
     out = []
     seen = set()
@@ -146,7 +160,7 @@ def lattice(pattern, thorough):
     for w in WIDTHS:
         for s in d1_full[w]:
             add(s)
-    for tag, w, cws, mk in KINDS:
+    for tag, w, cws, mk in (KINDS + KINDS_NC if thorough else KINDS):
         for pos in range(len(cws)):
             sibs = []
             for i, cw in enumerate(cws):
@@ -157,7 +171,10 @@ def lattice(pattern, thorough):
                 else:
                     pool = list(red[cw]) if (len(cws) <= 2 or not pattern) else list(mini[cw])
                 sibs.append(pool)
-            for d in d1_deep[cws[pos]]:
+            nc = (tag, w, cws, mk) in KINDS_NC
+            if nc:      # thorough only: one depth-1 child over the mini leaves, mini siblings
+                sibs = [list(mini[cw]) for i, cw in enumerate(cws) if i != pos]
+            for d in (d1_mini if nc else d1_deep)[cws[pos]]:
                 for sc in itertools.product(*sibs):
                     ch = list(sc)
                     ch.insert(pos, d)
@@ -238,6 +255,8 @@ def diff_reason(p, s):
             return "ExprOp:operator-differs"
         if len(p) != len(s):
             return "ExprOp(%s):number-of-arguments-differs" % p[1]
+        if p[1] not in COMM and sorted(p[2:], key=repr) == sorted(s[2:], key=repr):
+            return "ExprOp(%s):arguments-permuted-for-a-non-commutative-operator" % p[1]
     if k == "compose" and len(p) != len(s):
         return "ExprCompose:pattern-has-%s-parts-than-subject" % ("fewer" if len(p) < len(s) else "more")
     for a, b in zip(children(p), children(s)):
@@ -441,7 +460,7 @@ def run(ctx):
         "exhaustive": True,
         "execution": how,
         "bounds": {"subjects": len(subjects), "patterns": len(patterns), "max_depth": 2, "widths": list(WIDTHS),
-                   "jokers": "j1, j2 per width", "seeds": ["{j1:8 -> a:8}"], "node_kinds": [k[0] for k in KINDS]},
+                   "jokers": "j1, j2 per width", "seeds": ["{j1:8 -> a:8}"], "node_kinds": [k[0] for k in KINDS], "non_commutative_operators": [k[0] for k in KINDS_NC]},
         "match_calls": sum(r["n"] for r in res) * 2,
         "matches_fresh": sum(r["matches"] for r in res),
         "matches_seeded": sum(r["seeded_matches"] for r in res),
